@@ -43,6 +43,7 @@ type NOp struct {
 	// CBIn (peer, adversarial): the award transaction (right award in output 0) also cites somebody's unspent output
 	// as an input; 2 = and pays its amount to the proposer in a second output
 	// 3 = the award transaction carries an unrequested key write (TxInputsExt / TxOutputsExt on $verif/a)
+	// 6 / 7 = the award output itself / a further output of the award transaction is addressed to the fee placeholder "$"
 	CBIn int `json:"cbin,omitempty"`
 	// TxMut (peer, adversarial): the first generated transaction of the block is changed after it was built:
 	// "autogen" (plain transfer only: Autogen flag set, signatures removed), "nosig" (signatures removed),
@@ -506,6 +507,21 @@ func (nm *NodeMachine) Apply(op NOp) error {
 				valid = false
 				whyNot = "the award transaction mints more than CalcAward(height)"
 				nm.Stat["peer-coinbase-extra-output"]++
+			}
+			if op.CBIn == 6 || op.CBIn == 7 {
+				// an award output addressed to the fee placeholder "$" (6: the award itself, 7: a further output): the
+				// output loop of doTxInternal skips it (nothing is counted into the total), payFee credits it to the proposer
+				cb := txs[0]
+				if op.CBIn == 6 {
+					cb.TxOutputs[0].ToAddr = []byte("$")
+				} else {
+					cb.TxOutputs = append(cb.TxOutputs, &protos.TxOutput{ToAddr: []byte("$"), Amount: big.NewInt(777).Bytes()})
+				}
+				cb.Txid, _ = txhash.MakeTransactionID(cb)
+				valid = false
+				whyNot = "the award transaction pays an output to the fee placeholder (credited to the proposer without being counted in the total supply)"
+				nm.Stat["peer-coinbase-fee-placeholder-output"]++
+				victim = nil
 			}
 			if op.CBIn == 3 {
 				cb := txs[0]
